@@ -94,7 +94,11 @@ func Packages(l *Log) native.Packages {
 
 // Declarations returns the declarations of package pkg (also usable as template globals).
 func Declarations(l *Log, nilIntPtr **int, nilMap *map[string]int, ints *[]int) native.Declarations {
+	uniq := 0
 	return native.Declarations{
+		"Uniq":    func(s string) string { uniq++; return s + "." + strconv.Itoa(uniq) },
+		"UniqInt": func(n int) int { uniq++; return n*1000 + uniq },
+		"UniqErr": func(s string) error { uniq++; return errors.New(s + "." + strconv.Itoa(uniq)) },
 		"Tick":    func(n int) { l.Add("T" + strconv.Itoa(n)) },
 		"TickEnv": func(env native.Env, n int) { l.Add("TE" + strconv.Itoa(n)) },
 		"Var":     func(xs ...int) { l.Add("V" + strconv.Itoa(len(xs))) },
@@ -106,8 +110,8 @@ func Declarations(l *Log, nilIntPtr **int, nilMap *map[string]int, ints *[]int) 
 				l.Add("S:" + reflect.TypeOf(v).Kind().String())
 			}
 		},
-		"Zero":      func() int { return 0 },
-		"Box":       func(n int) any { return n },
+		"Zero": func() int { return 0 },
+		"Box":  func(n int) any { return n },
 		"Got": func(v any) {
 			if v == nil {
 				l.Add("G0")
@@ -115,11 +119,11 @@ func Declarations(l *Log, nilIntPtr **int, nilMap *map[string]int, ints *[]int) 
 				l.Add("G1")
 			}
 		},
-		"Print":     func(args ...any) { l.Add("P" + strconv.Itoa(len(args))) },
-		"CallStr":   func(f func() string) string { l.Add("CS<"); s := f(); l.Add("CS>"); return s },
-		"Call":      func(f func()) { l.Add("C<"); f(); l.Add("C>") },
-		"CallEnv":   func(env native.Env, f func()) { l.Add("CE<"); f(); l.Add("CE>") },
-		"CallRet":   func(f func(int) int, x int) int { l.Add("CR<"); n := f(x); l.Add("CR>"); return n },
+		"Print":   func(args ...any) { l.Add("P" + strconv.Itoa(len(args))) },
+		"CallStr": func(f func() string) string { l.Add("CS<"); s := f(); l.Add("CS>"); return s },
+		"Call":    func(f func()) { l.Add("C<"); f(); l.Add("C>") },
+		"CallEnv": func(env native.Env, f func()) { l.Add("CE<"); f(); l.Add("CE>") },
+		"CallRet": func(f func(int) int, x int) int { l.Add("CR<"); n := f(x); l.Add("CR>"); return n },
 		"MaybeCall": func(f func()) {
 			if f != nil {
 				f()
@@ -185,6 +189,12 @@ func TickEnv(n int)               { add("TE" + strconv.Itoa(n)) }
 func Var(xs ...int)               { add("V" + strconv.Itoa(len(xs))) }
 func VarEnv(s string, xs ...any)  { add("VE" + s + strconv.Itoa(len(xs))) }
 func Zero() int                   { return 0 }
+
+var uniq int
+
+func Uniq(s string) string   { uniq++; return s + "." + strconv.Itoa(uniq) }
+func UniqInt(n int) int      { uniq++; return n*1000 + uniq }
+func UniqErr(s string) error { uniq++; return errors.New(s + "." + strconv.Itoa(uniq)) }
 func Box(n int) any               { return n }
 func Got(v any) {
 	if v == nil {
